@@ -327,8 +327,10 @@ class PartitioningPatternEncoder(PatternEncoderBase):
         if any(n.min_conns != src[0].min_conns for n in src):
             return False
 
-        # Check if all target nodes have 1 connection or 0 or 1 connections
+        # Check if all target nodes have 1 connection or all have 0 or 1 connections (not a mix of the two)
         if any(n.conns != [1] and n.conns != [0, 1] for n in tgt):
+            return False
+        if any(n.conns != tgt[0].conns for n in tgt):
             return False
 
         # Check if there are not too many connections asked for
